@@ -17,7 +17,8 @@ props.prop(
                 'array); the three exporters agree with each other; the load log writes and reads the same keys and reloads '
                 'with the saved path, factory and keyword arguments.',
     decides='component enumeration, naming and order in the three exporters; mask applied to every exported column; in-place '
-            'masking only on copies; sibling agreement; LoadLog key agreement and argument forwarding',
+            'masking only on copies; sibling agreement; LoadLog key agreement and argument forwarding, computed from what was '
+            'logged (no live reads); dtypes passed on whole (byte order kept)',
     not_decided='fidelity of the file formats themselves (astropy.io, h5py, numpy), the factories\' type inference, encodings, '
                 'NaN/blank conventions: those quantify over array contents and external library behaviour',
     assumptions=['Table.write / h5py / fits write what they are given'])
